@@ -363,6 +363,9 @@ def check(chk):
     chk.ob("UNIT-7", "credits do not expire during a game", rms >= {"'clear_fractional_credits'", "'clear_all_credits'"}, gs.where(), detail=str(rms),
            construct=gs.ident, text="expiry paused in game")
 
+    from sa.helpers import setting_value_source
+    setting_value_source(chk, "TABLE-10")
+
     # ------------------------------------------------------------ FLAG-20: the once-per-game tier reset
     # the tier progress restarts when a game starts (unconditionally) and once more when player 1 starts ball 2; the "done this game" flag
     # belongs to the second reset only: it is set nowhere else, so the game-start reset cannot use it up
@@ -447,6 +450,7 @@ def battery():
         M("tier progress stuck at one", CR, "                self.credit_units_for_pricing_tiers += 1\n                bonus_credit_units", "                self.credit_units_for_pricing_tiers = 1\n                bonus_credit_units", "TIER-1"),
         M("game start uses up the once-per-game tier reset", CR, "        # pricing tiers will restart when the game starts\n        self.credit_units_for_pricing_tiers = 0", "        # pricing tiers will restart when the game starts\n        self._reset_pricing_tier_credits()", "FLAG-20"),
         M("expiry periods run from the first coin", CR, "            self.delay.reset(\n                ms=self.credits_config['fractional_credit_expiration_time'],", "            self.delay.add_if_doesnt_exist(\n                ms=self.credits_config['fractional_credit_expiration_time'],", "UNIT-7"),
+        M("a stored falsy setting falls back to the default", "mpf/core/settings_controller.py", "        if not self.machine.variables.is_machine_var(self._settings[setting_name].machine_var):\n            value = self._settings[setting_name].default\n        else:\n            value = self.machine.variables.get_machine_var(self._settings[setting_name].machine_var)\n", "        value = self.machine.variables.get_machine_var(self._settings[setting_name].machine_var)\n        if not value:\n            value = self._settings[setting_name].default\n", "TABLE-10"),
     ]
 
 
